@@ -1160,6 +1160,12 @@ func (c *Compiler) compileFunc(node *ast.Func) error {
 		case *ast.Int:
 			value = expr.Value()
 		case *ast.String:
+			// A template string is not a constant: its text would be used
+			// as the default without being interpolated
+			if expr.Template() != nil {
+				line := node.Token().StartPosition.Line + 1
+				return fmt.Errorf("compile error: unsupported default value (got %s, line %d)", expr, line)
+			}
 			value = expr.Value()
 		case *ast.Bool:
 			value = expr.Value()
